@@ -72,7 +72,7 @@ var refGrammars = map[string]refGrammar{
 
 // non-validating regular expressions (reviewed): name -> reason
 var nonGrammarRegex = map[string]string{
-	"internal/pkg/imports.regexNoAlphaNum":   "replacement class of the alias sanitiser (decided by R14.5)",
+	"internal/pkg/imports.regexNoAlphaNum":  "replacement class of the alias sanitiser (decided by R14.5)",
 	"internal/pkg/template.reEmptyNewLines": "cosmetic blank-line squeeze of the formatter",
 }
 
